@@ -1,6 +1,7 @@
 (* C10 — Pairing is independent of goroutine interleaving (DESIGN.md 5.C10). *)
 Require Import V.Base.Prelude V.Match.Matcher V.Match.MatcherSeq V.Match.MatcherConc V.Match.MatcherConcProofs.
 From Coq Require Import Permutation.
+Require Import V.Match.MatcherSrcTy V.Match.MatcherTie V.gen.MatcherSrc.
 
 (* One thread per (connection, direction), atoms: counter increment, register (the critical
    section of registerLock), emit.  For every interleaving, a complete run emits exactly the
@@ -42,3 +43,9 @@ Theorem C10_lock_granular_small :
   mcounterexamples true true [(1, true, [10]); (1, false, [20])] = []
   /\ mcounterexamples true true [(1, true, [10; 11]); (1, false, [20; 21])] = [].
 Proof. exact conc_lockgran_small. Qed.
+
+(* the atomicity the machine assumes is what the source does: in all six register functions
+   (regenerated from the source on every run) the map operations sit inside registerLock *)
+Theorem C10_register_is_critical_section :
+  length matcher_src = 6%nat /\ forallb (list_eqb ratom_eqb critical_section) matcher_src = true.
+Proof. exact matcher_src_locked. Qed.
